@@ -17,6 +17,7 @@ package ca
 import (
 	"context"
 	"fmt"
+	"strings"
 
 	v1 "k8s.io/api/core/v1"
 	"k8s.io/apimachinery/pkg/types"
@@ -120,6 +121,12 @@ func (na *ClusterNodeAuthorizer) authenticateImpersonation(caller security.Kuber
 	// Next, make sure the identity they want to impersonate is valid, in general
 	requestedIdentity, err := spiffe.ParseIdentity(requestedIdentityString)
 	if err != nil {
+		return fmt.Errorf("failed to validate impersonated identity %v", requestedIdentityString)
+	}
+	// The identity is signed as given. Identities are joined with "," when the certificate's SAN extension
+	// is built, so an identity containing the separator (ParseIdentity does not restrict the trust domain
+	// segment) would be signed as several names.
+	if strings.Contains(requestedIdentityString, ",") {
 		return fmt.Errorf("failed to validate impersonated identity %v", requestedIdentityString)
 	}
 
